@@ -104,6 +104,7 @@ def run_history(case):
             model[f"H{h}"] = {}
 
         group_data = {}
+        removed = {}
         table_seen = [False]
         other = [None]  # a second workspace holding a copy of the group, kept open
 
@@ -137,6 +138,12 @@ def run_history(case):
                 extra = names - set(datas) - {"DEPTH", "FROM", "TO"}
                 if extra:
                     return f"{where}: {hname} still lists removed data {sorted(extra)}"
+                # ... and the live hole itself no longer hands the removed data out (lookup by name, child list)
+                for gone in sorted(removed.get(hname, set()) - set(datas)):
+                    if [x for x in hole[0].get_data(gone) if x is not None]:
+                        return f"{where}: {hname}.get_data('{gone}') still returns the removed data"
+                    if any(getattr(c, "name", None) == gone for c in hole[0].children):
+                        return f"{where}: {hname} still holds the removed data '{gone}' among its children"
             # the group-wide table view of the interval table 'assays' lists exactly the per-hole values, in hole order
             in_table = [hn for hn in sorted(model) if any(k.endswith("_iv") for k in model[hn])]
             if in_table or table_seen[0]:
@@ -209,6 +216,7 @@ def run_history(case):
                 else:
                     hole.remove_children(hole.get_data(name)[0])
                 del model[hname][name]
+                removed.setdefault(hname, set()).add(name)
             elif op in ("add_note", "remove_note"):
                 # a value attached to the hole as a whole (no depth table, no property group)
                 nname = name + "_note"
@@ -222,6 +230,7 @@ def run_history(case):
                     else:
                         hole.remove_children(hole.get_data(nname)[0])
                     del model[hname][nname]
+                    removed.setdefault(hname, set()).add(nname)
             elif op in ("add_iv", "update_iv"):
                 # interval data of the property group 'assays' (shown by the group-wide table view)
                 iname = name + "_iv"
